@@ -44,7 +44,11 @@ func ParseInputLine(inputLine string) {
 		}
 		fmt.Println("readyok")
 	} else if inputLine == "eval" {
-		fmt.Println(Evaluate(posGen.getTopPos(), 0, true))
+		if posGen == nil {
+			fmt.Println("No position set to evaluate")
+		} else {
+			fmt.Println(Evaluate(posGen.getTopPos(), 0, true))
+		}
 	} else if inputLine == "quit" {
 		Quit = true
 	} else if strings.HasPrefix(inputLine, uPosition) {
